@@ -52,6 +52,7 @@ type compSess struct {
 	inUnreal, unrealDead bool
 	inSent      int
 	inNotes     string
+	notesOff    bool // on a tree without fixes/C07-fpa-record-notes.diff: a live GetMove call used rule notes that are not those of the record
 	staleEffect bool // such a call did something (command sent, rule notes changed, searcher asked, move returned, panic)
 }
 
@@ -126,6 +127,9 @@ func compStart(kind, arg, colour string, size, secs int, gameNo string, pinned b
 		cs.inP, cs.inCtx = p, ctx
 		cs.inStale, cs.inSent, cs.inNotes = ctx.Err() != nil, len(b.sent), cs.c.VerifRuleNotes()
 		cs.inUnreal = p.MoveNumber() == 0 && cs.chk[0] >= int64(ai.WinThreshold) && cs.chk[1] <= 1
+		if ctx.Err() == nil && cs.c.VerifNotesOutOfStep(p) {
+			cs.notesOff = true
+		}
 		return []fpa.VerifChk{{V: cs.chk[0], Depth: int(cs.chk[1])}, {V: cs.chk[2]}}, true
 	}
 	cs.c.Search = func(ctx context.Context, p *tak.Position) tak.Move {
@@ -192,8 +196,16 @@ func compStart(kind, arg, colour string, size, secs int, gameNo string, pinned b
 
 func (cs *compSess) status() string {
 	cs.b.mu.Lock()
-	d, st, unreal := cs.dead, cs.staleEffect && !cs.pinned, cs.unrealDead
+	d, st, off, unreal := cs.dead, cs.staleEffect && !cs.pinned, cs.notesOff, cs.unrealDead
 	cs.b.mu.Unlock()
+	if off {
+		// never printed by the model (it is of the patched code), never set on a patched tree: known finding C07-fpa-resume-panic
+		return "notes-" + cs.statusInner(d, st, unreal)
+	}
+	return cs.statusInner(d, st, unreal)
+}
+
+func (cs *compSess) statusInner(d, st, unreal bool) string {
 	pre := ""
 	if st {
 		// never printed by the model: GetMove ran, with effects, for a thinker whose invocation was over
